@@ -3,6 +3,9 @@ import ThriftVerif.Facts.ExpectWire
 import ThriftVerif.Facts.ExpectProto
 #print axioms ThriftVerif.Properties.C12.envelope_roundtrip_strict
 #print axioms ThriftVerif.Properties.C12.envelope_roundtrip_legacy
+#print axioms ThriftVerif.Properties.C12.framings_never_confused
+#print axioms ThriftVerif.Properties.C12.strict_envelope_injective
+#print axioms ThriftVerif.Properties.C12.legacy_envelope_injective
 #print axioms ThriftVerif.Properties.C12.legacy_empty_name_rejected
 #print axioms ThriftVerif.Properties.C12.request_strict
 #print axioms ThriftVerif.Properties.C12.request_legacy
